@@ -849,6 +849,9 @@ func (fc *FuncCtx) execInstr(fr *Frame, st *State, ins ssa.Instruction) {
 		}
 		if x.Heap || isArr {
 			ref := fc.newRef(st, "new."+clip(x.Comment, 12))
+			if _, isSt := et.Underlying().(*types.Struct); isSt {
+				fc.notePrivate(st, et, ref)
+			}
 			pl := fc.objPlace(ref, et)
 			fc.zeroInit(st, pl, et, ref)
 			fr.vals[x] = pl
@@ -861,6 +864,9 @@ func (fc *FuncCtx) execInstr(fr *Frame, st *State, ins ssa.Instruction) {
 		p := fc.toPlace(fr, st, x.Addr, x.Pos())
 		v := fc.val(fr, st, x.Val)
 		fc.checkGuard(fr, st, p, x.Pos(), true)
+		if p.Kind != "local" {
+			fc.publish(st, x.Val.Type())
+		}
 		fc.storePlace(st, p, v)
 	case *ssa.UnOp:
 		fr.vals[x] = fc.execUnOp(fr, st, x)
@@ -933,6 +939,9 @@ func (fc *FuncCtx) execInstr(fr *Frame, st *State, ins ssa.Instruction) {
 		cv := ClosureV{Fn: x.Fn.(*ssa.Function)}
 		for _, b := range x.Bindings {
 			cv.Bindings = append(cv.Bindings, fc.val(fr, st, b))
+		}
+		if len(x.Bindings) > 0 {
+			st.private = nil // captured variables may hold anything
 		}
 		cv.ID = fc.u.fresh("closure", "Int")
 		fc.u.fact(st.pc, "(> "+cv.ID+" 0)")
@@ -1162,4 +1171,116 @@ func callsInLoop(li *loopInfo, name string) bool {
 		}
 	}
 	return false
+}
+
+// ---------- path-by-path execution (contracts with `flag paths`) ----------
+// Every path through the loop-cut CFG is executed on its own (no state merging), so the solver never has to
+// split cases on merged heap components. Exponential in the number of branches: meant for small functions.
+
+func (fc *FuncCtx) execFramePaths(fr *Frame, st *State) []*retRec {
+	fn := fr.fn
+	loops := analyzeLoops(fn)
+	for _, b := range fn.Blocks {
+		for _, ins := range b.Instrs {
+			if d, ok := ins.(*ssa.Defer); ok {
+				fr.defers = append(fr.defers, d)
+				for _, li := range loops {
+					if li.body[b] {
+						fc.unsupported("defer inside a loop in %s", fn.Name())
+					}
+				}
+			}
+		}
+	}
+	npaths := 0
+	usedLoops := map[int]bool{}
+	var run func(b, from *ssa.BasicBlock, cur *State, vals map[ssa.Value]Value)
+	run = func(b, from *ssa.BasicBlock, cur *State, vals map[ssa.Value]Value) {
+		if cur.dead || cur.pc == "false" {
+			return
+		}
+		fr.vals = vals
+		if li, isHeader := loops[b]; isHeader {
+			usedLoops[li.ordinal] = true
+			cur = fc.enterLoop(fr, li, cur)
+			if cur.dead {
+				return
+			}
+		}
+		for _, ins := range b.Instrs {
+			if cur.dead {
+				return
+			}
+			switch x := ins.(type) {
+			case *ssa.Phi:
+				for i, e := range x.Edges {
+					if x.Block().Preds[i] == from {
+						vals[x] = fc.val(fr, cur, e)
+					}
+				}
+			case *ssa.If:
+				c := fc.val(fr, cur, x.Cond).(Scalar).T
+				c = fc.u.define("br", "Bool", c)
+				for k, succ := range b.Succs {
+					cond := c
+					if k == 1 {
+						cond = tNot(c)
+					}
+					ns := cur.clone()
+					ns.pc = fc.u.define("pc", "Bool", tAnd(cur.pc, cond))
+					if ns.pc == "false" {
+						continue
+					}
+					if succ.Dominates(b) {
+						if li := loops[succ]; li != nil {
+							fr.vals = vals
+							fc.exitLoopBackEdge(fr, li, ns, x.Pos())
+						}
+						continue
+					}
+					nv := make(map[ssa.Value]Value, len(vals))
+					for kk, vv := range vals {
+						nv[kk] = vv
+					}
+					run(succ, b, ns, nv)
+				}
+				return
+			case *ssa.Jump:
+				succ := b.Succs[0]
+				if succ.Dominates(b) {
+					if li := loops[succ]; li != nil {
+						fc.exitLoopBackEdge(fr, li, cur, lastPos(b))
+					}
+					return
+				}
+				run(succ, b, cur, vals)
+				return
+			case *ssa.Return:
+				var rv []Value
+				for _, r := range x.Results {
+					rv = append(rv, fc.val(fr, cur, r))
+				}
+				npaths++
+				if npaths > 256 {
+					fc.unsupported("more than 256 paths in %s (drop `flag paths`)", fn.Name())
+				}
+				fr.rets = append(fr.rets, &retRec{st: cur, vals: rv, pos: x.Pos()})
+				return
+			case *ssa.Panic:
+				fc.execPanic(fr, cur, x)
+				return
+			default:
+				fc.execInstr(fr, cur, ins)
+			}
+		}
+	}
+	run(fn.Blocks[0], nil, st, fr.vals)
+	if fr.con != nil {
+		for k := range fr.con.Loops {
+			if !usedLoops[k] {
+				fc.driftf(fr, "loop %d named in the contract does not exist (or is unreachable)", k)
+			}
+		}
+	}
+	return fr.rets
 }
